@@ -11,7 +11,7 @@
 using namespace sd;
 
 static const int NMODEL = 3, NID = 5, NTS = 3;
-static const char* kModels[NMODEL] = {"m0", "m1", "m2"};
+static const char* kModels[NMODEL] = {"", "m1", "m2"};   // "" is the model name the compiler's own call sites use
 static const char* kIds[NID] = {"a", "b", "c", "d", "e"};
 static const char* kTs[NTS] = {"t0", "t1", "t2"};
 static const size_t kSizes[6] = {0, 1, 7, 64, 100, 4096};
